@@ -169,13 +169,8 @@ func (c *Ctx) configFuncs() map[*ssa.Function]bool {
 		goTargets := map[*ssa.Function]bool{}
 		sortCmp := map[*ssa.Function]bool{}
 		eachInstr(f, func(in ssa.Instruction) {
-			if g, ok := in.(*ssa.Go); ok {
-				if mc, ok := g.Call.Value.(*ssa.MakeClosure); ok {
-					goTargets[mc.Fn.(*ssa.Function)] = true
-				}
-				if sc := g.Call.StaticCallee(); sc != nil {
-					goTargets[sc] = true
-				}
+			if t, ok := goStart(in); ok && t != nil {
+				goTargets[t] = true
 			}
 			// comparators handed to package sort/slices get indices from the library
 			if call, ok := in.(*ssa.Call); ok {
